@@ -2432,9 +2432,12 @@ impl<'a> Model<'a> {
                     currencies.push(currency);
                 }
 
-                //  We try to parse as number
-                if let Ok((v, number_format)) =
+                //  We try to parse as number (text that denotes a number too large to be
+                //  represented, like 1e999, is not one: a cell never stores an infinity)
+                if let Some((v, number_format)) =
                     parse_formatted_number(&value, &currencies, self.locale)
+                        .ok()
+                        .filter(|(v, _)| v.is_finite())
                 {
                     if let Some(num_fmt) = number_format {
                         // Should not apply the format in the following cases:
